@@ -560,8 +560,15 @@ def run_c04(ctx):
     sc = fmt.Scratch()
     try:
         n_cases = 150 if ctx.tier == "quick" else 2500
-        for i in range(n_cases):
-            m = uvl_model(g, g.rng.choice([1, 2, 4, 7, 12]))
+
+        def models():
+            for i in range(n_cases):
+                yield uvl_model(g, g.rng.choice([1, 2, 4, 7, 12]))
+            # constraint lines that repeat, or differ only in letter case; numbering past 9
+            for m in gen.case_twin_models(cardinal=True):
+                if spec.spec_size(m["root"]) <= 20:
+                    yield m
+        for m in models():
             text = emit_uvl(m, g.rng, g)
             path = sc.path("uvl")
             with open(path, "w", encoding="utf-8") as fh:
